@@ -461,13 +461,12 @@ Definition srv_act (c : scfg) (s : srv) : action srv :=
       ARecv (s_recv s (fun s f =>
         if f_id f =? sbLoginAcknowledged then s_set s (cfg_phase c) else s_set s (SClosed scWrongPacket)))
   | SConfAck =>
-      (* the handler's error, if any, is dropped by AcceptConn (`s.AcceptConfig(conn)` without
-         assignment): AcceptPlayer is called whatever was read *)
-      ARecv (fun f => s_set s SJoined)
+      (* the harness's finish-only handler: one ReadPacket, an id other than the finish acknowledgement
+         is its error; AcceptConn returns on the handler's error (`err = s.AcceptConfig(conn)`) *)
+      ARecv (s_recv s (fun s f => if f_id f =? sbConfigFinish then s_set s SJoined else s_set s (SClosed scWrongPacket)))
   | SConfWait =>
       (* for { ReadPacket; if p.ID == ServerboundConfigFinishConfiguration { return nil } }: other
-         serverbound configuration packets are skipped; a read error is returned (and dropped by
-         AcceptConn, which then calls AcceptPlayer on a dead connection - not reachable here) *)
+         serverbound configuration packets are skipped; a read error is returned and stops AcceptConn *)
       ARecv (s_recv s (fun s f => if f_id f =? sbConfigFinish then s_set s SJoined else s_set s SConfWait))
   | SStatus O => AHalt
   | SStatus (S more) => ARecv (s_recv s (srv_status c more))
@@ -673,6 +672,73 @@ Fixpoint game (e : events) (m : mode) (ps : list pkt) : list call * outcome :=
   end.
 Definition handle_game (e : events) (ps : list pkt) : list call * outcome := game e MNormal ps.
 End Dispatch.
+
+(* ---------------------------------------------------------------- Part 5: the peer stops
+   One machine against a peer that delivers the frames `inc` and then closes the connection (or the
+   transport fails): the next ReadPacket returns an error.  A cut inside a frame is the same event
+   (a strict prefix of a frame makes ReadPacket fail: C07).  bot_eof / srv_eof: what each side does
+   with that error in the phase it is in. *)
+Definition stLoginRead : N := 13.    (* LoginErr{receiving, err} *)
+Definition stConfigRead : N := 14.   (* ConfigErr{"config custom payload", err} *)
+Definition stStatusRead : N := 15.   (* "bot: recv list/pong packect fail" *)
+Definition scEOF : N := 8.           (* the gate returns: handshake / AcceptLogin / AcceptConfig / acceptListPing read error *)
+Definition bot_eof (b : bot) : bot :=
+  match b_ph b with
+  | BLogin => b_set b (BFailed stLoginRead)
+  | BConfig => b_set b (BFailed stConfigRead)
+  | BStatusList | BStatusPong _ _ => b_set b (BFailed stStatusRead)
+  | _ => b
+  end.
+Definition srv_eof (s : srv) : srv :=
+  match s_ph s with
+  | SHandshake | SLoginStart | SAwaitAck | SConfAck | SConfWait | SStatus (S _) => s_set s (SClosed scEOF)
+  | _ => s
+  end.
+Fixpoint feed {T : Type} (act : T -> action T) (eof : T -> T) (fuel : nat) (s : T) (inc : list frame)
+    : list frame * T :=
+  match fuel with
+  | O => ([], s)
+  | S k =>
+      match act s with
+      | ASend f s' => let '(o, r) := feed act eof k s' inc in (f :: o, r)
+      | ARecv h => match inc with
+                   | f :: t => feed act eof k (h f) t
+                   | [] => ([], eof s)
+                   end
+      | AHalt => ([], s)
+      end
+  end.
+Definition bot_feed (c : bcfg) (fuel : nat) (b : bot) (inc : list frame) := feed (bot_act c) bot_eof fuel b inc.
+Definition srv_feed (offl : list N -> list N) (c : scfg) (fuel : nat) (s : srv) (inc : list frame) :=
+  feed (srv_act offl c) srv_eof fuel s inc.
+
+(* the bot's queue-backed Conn when the connection fails (bot/client.go warpConn): the reader goroutine
+   pushes what it receives, and on the first ReadPacket error records it, leaves its loop and closes
+   the receive queue; Conn.ReadPacket pulls, and once the queue is closed AND empty returns the error *)
+Record qstate := { q_wire : list ppkt;      (* packets that still arrive before the failure *)
+                   q_recvq : list ppkt; q_closed : bool;
+                   q_got : list ppkt;       (* what Conn.ReadPacket has returned, in order *)
+                   q_errs : nat }.          (* how many times Conn.ReadPacket has returned the error *)
+Inductive qev := QReader | QRead.
+Definition qstep (x : qstate) (e : qev) : qstate :=
+  match e with
+  | QReader =>
+      if q_closed x then x else
+      match q_wire x with
+      | p :: w => {| q_wire := w; q_recvq := q_recvq x ++ [p]; q_closed := false; q_got := q_got x; q_errs := q_errs x |}
+      | [] => {| q_wire := []; q_recvq := q_recvq x; q_closed := true; q_got := q_got x; q_errs := q_errs x |}
+      end
+  | QRead =>
+      match q_recvq x with
+      | p :: q => {| q_wire := q_wire x; q_recvq := q; q_closed := q_closed x; q_got := q_got x ++ [p]; q_errs := q_errs x |}
+      | [] => if q_closed x
+              then {| q_wire := q_wire x; q_recvq := []; q_closed := true; q_got := q_got x; q_errs := S (q_errs x) |}
+              else x                         (* blocked in Pull *)
+      end
+  end.
+Definition qinit (wire : list ppkt) : qstate :=
+  {| q_wire := wire; q_recvq := []; q_closed := false; q_got := []; q_errs := 0 |}.
+Definition qrun (wire : list ppkt) (es : list qev) : qstate := fold_left qstep es (qinit wire).
 
 (* ---------------------------------------------------------------- Part 4: a registry on the wire
    registry/network.go: Registry.WriteTo (entry count, then per entry in id order: key as Identifier,
